@@ -40,6 +40,13 @@ def domMargin (vs : List Vec) : Rat :=
 
 def showVec (v : Vec) : String := "[" ++ " ".intercalate (v.map ratStr) ++ "]"
 
+/-- corners, edge midpoints and the centre of the simplex of dimension `S` -/
+def probeBeliefs (S : Nat) : List Vec :=
+  let unit := fun (i : Nat) => (List.range S).map (fun s => if s == i then (1 : Rat) else 0)
+  let mids := (List.range S).flatMap (fun i => ((List.range S).filter (fun j => i < j)).map (fun j =>
+    (List.range S).map (fun s => if s == i || s == j then (1 : Rat) / 2 else 0)))
+  (List.range S).map unit ++ mids ++ (if S == 0 then [] else [(List.range S).map (fun _ => (1 : Rat) / S)])
+
 inductive Env where | ok | bad | undecided
   deriving BEq
 
@@ -47,15 +54,15 @@ inductive Env where | ok | bad | undecided
 def envelopeClause (S : Nat) (eps : Rat) (kept : List Vec) (r : Vec) (c : Option Cert) : Env :=
   if pairwiseOK eps kept r then .ok else
   match c with
-  | none => .undecided
+  | none => if (probeBeliefs S).any (fun b => violationOK S eps kept b r) then .bad else .undecided
   | some c =>
     let fk := match c.lam.bind normalize with
       | some l => farkasOK S eps kept l r
       | none => false
     if fk then .ok else
-    match c.b.bind normalize with
-    | some b => if violationOK S eps kept b r then .bad else .undecided
-    | none => .undecided
+    -- violated envelope: the certificate's belief, or (independent of any LP) a corner, an edge midpoint, the centre
+    let cands := (match c.b.bind normalize with | some b => [b] | none => []) ++ probeBeliefs S
+    if cands.any (fun b => violationOK S eps kept b r) then .bad else .undecided
 
 structure Acc where
   v : Verdict := {}
@@ -91,6 +98,28 @@ def dom : P String := do
   let sl := linkSlack (maxAbsL [l, r])
   let v := v.failIf (b && !(domAbs sl l r)) s!"dominates beyond_tolerance {showVec l} {showVec r}"
   let v := v.failIf (!b && domAbs 0 l r) s!"dominates exact_domination_missed {showVec l} {showVec r}"
+  return v.render
+
+/-- `best S n vecs point corner bound | i1 v1 i2 v2 newBound arr` -/
+def best : P String := do
+  let S ← P.nat; let n ← P.nat; let xs ← vecsP n S; let point ← vecP S; let corner ← P.nat; let bound ← P.nat; P.bar
+  let i1 ← P.nat; let v1 ← P.q; let i2 ← P.nat; let v2 ← P.q; let nb ← P.nat; let arr ← vecsP n S; P.eof
+  let m1 := findBest (dot point) xs
+  let m2 := findBest (fun v => v.getD corner 0) xs
+  let v : Verdict := { tag := if n < 2 then "best trivial" else "best" }
+  let v := v.diffIf (m1 != i1) s!"findBestAtPoint model={m1} impl={i1}"
+  let v := v.diffIf (m2 != i2) s!"findBestAtSimplexCorner model={m2} impl={i2}"
+  -- extractBestAtPoint: array = useful ++ rest, best moved to slot `bound` if it was in the rest
+  let mArr := if bound ≤ m1 then xs.take bound ++ [xs.getD m1 []] ++ takeOut (xs.drop bound) (m1 - bound) else xs
+  let mNb := if bound ≤ m1 then bound + 1 else bound
+  let v := v.diffIf (mArr != arr || mNb != nb) s!"extractBestAtPoint model_bound={mNb} impl_bound={nb}"
+  -- property clauses on the implementation's answers: argmax, reported value, permutation
+  let g1 := xs.getD i1 []; let g2 := xs.getD i2 []
+  let v := v.failIf (i1 ≥ n || xs.any (fun x => decide (dot point g1 < dot point x))) s!"findBestAtPoint not_argmax idx={i1}"
+  let v := v.failIf (i2 ≥ n || xs.any (fun x => decide (g2.getD corner 0 < x.getD corner 0))) s!"findBestAtSimplexCorner not_argmax idx={i2}"
+  let v := v.failIf (!(closeQ (1/1000000000) v1 (dot point g1)) || v2 != g2.getD corner 0) s!"findBestAtPoint wrong_value"
+  let v := v.failIf (!(isPermB xs arr)) "extractBestAtPoint not_a_permutation"
+  let v := v.failIf (nb > n || nb < bound || !((arr.take nb).any (fun x => xs.all (fun y => decide (dot point y ≤ dot point x))))) "extractBestAtPoint best_not_in_useful_range"
   return v.render
 
 /-- `ed S n vecs | e arr certs` -/
@@ -316,6 +345,7 @@ def handle (toks : List String) : String :=
   let r := match toks with
     | "dom" :: rest => P.run dom rest
     | "ed" :: rest => P.run ed rest
+    | "best" :: rest => P.run best rest
     | "edi" :: rest => P.run edi rest
     | "prune" :: rest => P.run prune rest
     | "lpi" :: rest => P.run lpi rest
